@@ -277,3 +277,92 @@ func Harness_C07_registry_races() {
 	verif_Assert("C07.race.counts", reg.Count() == len(reg.List()))
 	verif_Cover("C07.race.done")
 }
+
+// c07Named is a transport that names its own connection id (websocket, tunnel TCP connections).
+type c07Named struct {
+	verifConn
+	id string
+}
+
+func (c *c07Named) GetConnectionID() string { return c.id }
+
+// Connects through the real CreateConnection by transports that name their own ids, also an id
+// that is still live (a reconnect racing the old connection's teardown, or a peer reusing an id):
+// the late connect is refused and changes nothing - the live connection stays known, can log in,
+// and its close closes its transport; counts go back to what they were; a closed id can be used
+// again.
+func Harness_C07_named_connects() {
+	ctx := context.Background()
+	verif_ClockSet(int64(1) << 60)
+	auth := &vsAuth{ok: map[int64]bool{1001: true}}
+	sm := vsNewNode(ctx, "node-A", nil, auth, nil)
+	sm.streamFactory = stream.NewDefaultStreamFactory(ctx)
+	sm.streamMgr = stream.NewStreamManager(sm.streamFactory, ctx)
+	ids := []string{"w1", "w2"}
+	live := map[string]*c07Named{}
+	var all []*c07Named
+	n := verif_Bound("events")
+	for i := 0; i < n; i++ {
+		id := ids[verif_Choose(2)]
+		switch verif_Choose(3) {
+		case 0: // a connect naming this id
+			rw := &c07Named{verifConn: verifConn{In: &verifReader{}, Out: &verifSink{}}, id: id}
+			all = append(all, rw)
+			before := c07ConnCount(sm)
+			c, err := sm.CreateConnection(rw, rw)
+			if live[id] == nil {
+				verif_Assert("C07.named.fresh_id_accepted", err == nil && c != nil && c.ID == id)
+				live[id] = rw
+			} else {
+				verif_Assert("C07.named.live_id_refused", err != nil)
+				verif_Assert("C07.named.refusal_changes_nothing", c07ConnCount(sm) == before)
+				verif_Cover("C07.named.duplicate_refused")
+			}
+		case 1: // the live connection with this id logs in
+			if live[id] == nil {
+				continue
+			}
+			err := vsHandshake(sm, id, &packet.HandshakeRequest{ClientID: 1001, ConnectionType: "control", Protocol: "tcp"})
+			verif_Assert("C07.named.login_ok", err == nil)
+			cc := sm.GetControlConnectionByClientID(1001)
+			verif_Assert("C07.named.login_indexed", cc != nil && cc.ConnID == id)
+			// a duplicate login evicted the other connection's record; its transport closes with it
+			for o, rw := range live {
+				if o != id && sm.clientRegistry.GetByConnID(o) == nil && rw.Closed {
+					_ = sm.CloseConnection(o)
+					delete(live, o)
+				}
+			}
+		case 2: // the connection is closed
+			if live[id] == nil {
+				continue
+			}
+			before := c07ConnCount(sm)
+			_ = sm.CloseConnection(id)
+			verif_Assert("C07.named.close_closes_transport", live[id].Closed)
+			verif_Assert("C07.named.close_count", c07ConnCount(sm) == before-1)
+			delete(live, id)
+			verif_Cover("C07.named.closed")
+		}
+		for _, id := range ids {
+			c, ok := sm.GetConnection(id)
+			if live[id] != nil {
+				verif_Assert("C07.named.live_connection_known", ok && c != nil && c.ID == id)
+				verif_Assert("C07.named.live_transport_open", !live[id].Closed)
+			} else {
+				verif_Assert("C07.named.closed_connection_unknown", !ok)
+				_, inStreams := sm.streamMgr.GetStream(id)
+				verif_Assert("C07.named.closed_stream_forgotten", !inStreams)
+			}
+		}
+		verif_Assert("C07.named.count", c07ConnCount(sm) == len(live))
+		verif_Assert("C07.named.stream_count", sm.streamMgr.GetStreamCount() == len(live))
+	}
+	verif_Cover("C07.named.done")
+}
+
+func c07ConnCount(sm *SessionManager) int {
+	sm.connLock.RLock()
+	defer sm.connLock.RUnlock()
+	return len(sm.connMap)
+}
